@@ -1888,6 +1888,8 @@ func e2eCase(c *kit.Case) {
 				kind = "work-headers-on-timeout-result"
 			case strings.Contains(res.body, timeoutBody) && strings.Contains(res.body, "["+q.Tag):
 				kind = "work-body-and-timeout-body"
+			case res.body == expBody.String() && res.status == q.Status:
+				kind = "headers-differ"
 			case strings.HasPrefix(expBody.String(), res.body) && res.status == q.Status:
 				kind = "partial-body"
 			}
